@@ -239,12 +239,43 @@ def g_pipe(c, hint=None):
     return bad
 
 
+def g_depth(c, hint=None):
+    """C18 at the command line: the binary survives every nesting depth on its default main-thread stack"""
+    bad = []
+
+    def nest(kind, d):
+        if kind == "arrays":
+            return bytes([0x91]) * d + b"\xc0"
+        if kind == "maps":
+            return bytes([0x81, 0xa1, 0x6b]) * d + b"\xc0"
+        return b"".join(bytes([0x91]) if i % 2 else bytes([0x81, 0xa1, 0x6b]) for i in range(d)) + b"\xc0"
+    for kind in ("arrays", "maps", "mixed"):
+        for d in (100, 600, 900, 1000, 1023, 1024, 1025, 5000):
+            data = nest(kind, d)
+            fn = "deep-%s-%d.msgpack" % (kind, d)
+            open(os.path.join(c.dir, fn), "wb").write(data)
+            for to in ("json", "msgpack", "yaml"):
+                for via in ("file", "stdin"):
+                    try:
+                        rc, out, err = c.run(["-t", to, fn] if via == "file" else ["-f", "msgpack", "-t", to], stdin=b"" if via == "file" else data, timeout=60)
+                    except subprocess.TimeoutExpired:
+                        bad.append("%s depth %d -> %s via %s: hangs" % (kind, d, to, via))
+                        continue
+                    if rc < 0 or rc > 2:
+                        bad.append("%s depth %d -> %s via %s: the process dies (status %d): %r" % (kind, d, to, via, rc, err[:80]))
+                    elif d <= 1023 and (rc != 0 or not out):
+                        bad.append("%s depth %d -> %s via %s: within the documented limit but exit=%d stderr=%r" % (kind, d, to, via, rc, err[:80]))
+                    elif d > 1023 and (rc != 1 or b"depth limit" not in err):
+                        bad.append("%s depth %d -> %s via %s: beyond the limit but exit=%d stderr=%r" % (kind, d, to, via, rc, err[:80]))
+    return bad
+
+
 GROUPS = {
     "format_name": g_format_names, "extension": g_extensions, "resolution": g_resolution, "input_kind": g_resolution, "to": g_resolution,
     "stdin_twice": g_resolution, "noargs": g_resolution, "open_stdin": g_resolution, "open_file": g_resolution, "open_err": g_exit1,
     "open_ok": g_resolution, "open_fallback": g_resolution, "dash": g_resolution,
     "usage": g_usage, "argv": g_usage, "exit_code": g_usage, "exit1": g_exit1, "names_input": g_exit1, "exit0": g_flush, "exit0_flush": g_flush,
-    "stdout": g_usage, "flush_order": g_flush, "flush_chain": g_flush, "flush_exit1": g_flush, "flush_return": g_flush, "wiring": g_pipe,
+    "stdout": g_usage, "flush_order": g_flush, "flush_chain": g_flush, "flush_exit1": g_flush, "flush_return": g_flush, "wiring": g_pipe, "thread": g_depth,
 }
 
 
